@@ -221,12 +221,14 @@ fn selections(n: usize, full: bool) -> Vec<(&'static str, Vec<usize>)> {
             let s: Vec<usize> = (0..n).filter(|i| mask >> i & 1 == 1).collect();
             out.push(("selection", s));
         }
-    } else if n >= 1 {
+    } else if full {
         out.push(("permutation", (0..n).rev().collect()));
         out.push(("permutation", (0..n).map(|i| (i + 1) % n).collect()));
         out.push(("selection", (1..n).collect()));
         out.push(("selection", (0..n).step_by(2).collect()));
         out.push(("selection", vec![]));
+    } else if n >= 2 {
+        out.push(("permutation", (0..n).rev().collect()));
     }
     out
 }
@@ -717,6 +719,28 @@ pub fn whiten_domain(xs: &Mat, p: usize) -> WhitenDomain {
     WhitenDomain { full_rank: true, cond: lmax / lmin, lambda, maxabs }
 }
 
+/// Classification aid only (never a verdict): relative reconstruction residual max|A - U S V^t| / max|A|
+/// of linfa-linalg's SVD — the routine `Whitener::fit` calls — on the very matrix the subject hands to
+/// it (centred records for PCA, their covariance for ZCA), in the subject's float type. A backward
+/// stable SVD gives a few eps_F.
+fn dependency_svd_residual<F: Fl>(a: &Array2<F>, covariance: bool) -> Option<f64> {
+    use linfa_linalg::svd::SVD;
+    let n = a.nrows();
+    let mean = a.mean_axis(Axis(0))?;
+    let xc = a - &mean;
+    let input: Array2<F> = if covariance { xc.t().dot(&xc) / F::cast(n - 1) } else { xc };
+    let r = guarded(|| input.svd(true, true)).ok()?.ok()?;
+    let (u, s, vt) = (r.0?, r.1, r.2?);
+    let rec = u.dot(&Array2::from_diag(&s)).dot(&vt);
+    let amax = input.iter().fold(0.0f64, |m, x| m.max(f64of(*x).abs()));
+    let res = rec.iter().zip(input.iter()).fold(0.0f64, |m, (x, y)| m.max((f64of(*x) - f64of(*y)).abs()));
+    if amax > 0.0 && res.is_finite() {
+        Some(res / amax)
+    } else {
+        None
+    }
+}
+
 fn run_whiten<F: Fl>(
     name: &'static str,
     case: &Case,
@@ -846,6 +870,14 @@ fn run_whiten<F: Fl>(
                     _ => None,
                 };
                 let mut sig = format!("whitener.{}.covariance_not_identity", m);
+                if m != "cholesky" {
+                    if let Some(r) = dependency_svd_residual::<F>(a, m == "zca") {
+                        if r > 64.0 * F::EPS {
+                            sig = format!("whitener.{}.inaccurate_svd_of_linfa_linalg", m);
+                            cnt.bump("whitening_violations_with_inaccurate_dependency_svd", 1);
+                        }
+                    }
+                }
                 if let Some((mut pred, narrow)) = predicted {
                     if pred.iter().any(|x| (x - 1.0).abs() > tol) {
                         let (mut obs, _) = refmath::jacobi_eig(&cz);
@@ -1027,6 +1059,9 @@ fn run_dataset<F: Fl>(case: &Case, v: &mut Vec<Violation>, cnt: &mut Cnt) {
     let fnames: Vec<String> = if opt.feature_names { (0..p).map(|j| format!("feature-{}", j)).collect() } else { vec![] };
     let names = all_names(case);
     for name in names {
+        if name == "minmax_flipped_5_2" {
+            continue; // fit is an error by contract (checked in the "fit" families)
+        }
         macro_rules! with_targets {
             ($targets:expr, $nt:expr) => {{
                 let tnames: Vec<String> = if opt.target_names { (0..$nt).map(|j| format!("target-{}", j)).collect() } else { vec![] };
